@@ -1096,7 +1096,7 @@ func main() {
 	nwracekeep := flag.Int("nwracekeep", -1, "wide race rounds to keep (-1: nracekeep/3)")
 	long := flag.String("long", "", "long-run traces (run-length encoded; empty: none)")
 	longchurn := flag.Int("longchurn", 65540, "calls of the long eviction run (0: none)")
-	longtouch := flag.Int("longtouch", 700, "calls of the long recency run (0: none)")
+	longtouch := flag.Int("longtouch", 65540, "calls of the long recency run (0: none)")
 	nreconf := flag.Int("nreconf", -1, "reconfiguration histories (-1: hist/5)")
 	nshape := flag.Int("nshape", -1, "shape-class histories (-1: all of them if hist > 0)")
 	flag.Parse()
@@ -1189,16 +1189,14 @@ func main() {
 		// long runs around integer widths: 8-bit marks for Length/Size/evictions/recency in every run,
 		// 16-bit marks for evictions and recency (Length beyond 2^16 is too large a state for TLC)
 		lw := tr.Create(*long)
-		sized := *seed%2 == 0
-		longFill(lw, rng, sized, 300)
-		longFill(lw, rng, !sized, 258)
-		longChurn(lw, rng, !sized, 600)
-		longTouch(lw, rng, sized, 300+rng.Intn(300))
-		if *longchurn > 0 {
-			longChurn(lw, rng, sized, *longchurn)
-		}
-		if *longtouch > 0 {
-			longTouch(lw, rng, !sized, *longtouch+rng.Intn(7))
+		for _, sized := range []bool{*seed%2 == 0, *seed%2 != 0} {
+			longFill(lw, rng, sized, 258+rng.Intn(60))
+			if *longchurn > 0 {
+				longChurn(lw, rng, sized, *longchurn+rng.Intn(5))
+			}
+			if *longtouch > 0 {
+				longTouch(lw, rng, sized, *longtouch+rng.Intn(7))
+			}
 		}
 		lw.Close()
 		fmt.Printf("long_events=%d\n", lw.N())
